@@ -72,6 +72,8 @@ def size_values(f):
 
 
 def run(m, rep, tier):
+    from .. import canaries
+    canaries.run(m, rep, ('nw',))
     ents = string_entries(m)
     rep.extra['string_entry_points'] = sorted(ents)
     # ---- T1 --------------------------------------------------------------------------
